@@ -343,6 +343,7 @@ func patternVariants(rng *rand.Rand, w *World, n int) [][]string {
 func envVariant(rng *rand.Rand, g *GenSpec, w *World) {
 	g.Cwd = []string{"chdir", "abs", "rel", "chdir", "abs", "rel", "abs-slash", "symlink"}[rng.IntN(8)]
 	g.Gomaxprocs = []int{0, 1, 4, 16}[rng.IntN(4)]
+	g.CustomCLI = rng.IntN(5) == 0
 	g.Patterns = patternVariants(rng, w, 1)[0]
 	g.Plan.Clock = 1_600_000_000 + int64(rng.IntN(1_000_000))
 	g.Plan.Pid = 1000 + rng.IntN(30000)
